@@ -103,7 +103,8 @@ def styles(rng):
     s2 = ir.Style(rng=random.Random(rng.random()), parens='full')
     s3 = ir.Style(rng=random.Random(rng.random()), case='mixed', parens='random')
     s4 = ir.Style(rng=random.Random(rng.random()), space='random', comments=True, case=rng.choice(['upper', 'lower']))
-    return [('minimal', s1), ('redundant', s2), ('mixedcase', s3), ('whitespace+comments', s4)]
+    s5 = ir.Style(space='tight')
+    return [('minimal', s1), ('redundant', s2), ('mixedcase', s3), ('whitespace+comments', s4), ('tight', s5)]
 
 
 def classify_text(text):
@@ -214,6 +215,29 @@ def literal_spellings():
            ('(1,)', [1]), ('(1, 2)', [1, 2]), ('("a", \'b\')', ['a', 'b']), ('(1.50, 2020-01-01, TRUE)', [D('1.50'), datetime.date(2020, 1, 1), True]),
            ('(1,2,3,4,5)', [1, 2, 3, 4, 5])]
     return out
+
+
+def tight_arithmetic():
+    """Texts without any blank around arithmetic on number literals, with the AST the grammar gives them: a date literal is
+    exactly NNNN-NN-NN; everything else is integer / decimal arithmetic, left-associative."""
+    from beanquery.parser import ast
+    C = ast.Constant
+    d = datetime.date
+    D = Decimal
+    def sub(*xs):
+        out = C(xs[0])
+        for x in xs[1:]:
+            out = ast.Sub(out, C(x))
+        return out
+    return [
+        ('2020-1-5', sub(2020, 1, 5)), ('2020-10-5', sub(2020, 10, 5)), ('2020-1-15', sub(2020, 1, 15)), ('2020-01-05', C(d(2020, 1, 5))),
+        ('1-2-3', sub(1, 2, 3)), ('999-10-10', sub(999, 10, 10)), ('12345-10-10', sub(12345, 10, 10)), ('2020-010-05', sub(2020, 10, 5)),
+        ('2020-12-31-1', ast.Sub(C(d(2020, 12, 31)), C(1))), ('2021-01-01-2020-01-01', ast.Sub(C(d(2021, 1, 1)), C(d(2020, 1, 1)))),
+        ('1-2020-01-05', ast.Sub(C(1), C(d(2020, 1, 5)))), ('2020-1', sub(2020, 1)), ('2020-01', sub(2020, 1)), ('2020-01-5', sub(2020, 1, 5)),
+        ('1.5-2', ast.Sub(C(D('1.5')), C(2))), ('1.-2', ast.Sub(C(D('1')), C(2))), ('2020.-01-05', ast.Sub(ast.Sub(C(D('2020')), C(1)), C(5))),
+        ('1+2*3', ast.Add(C(1), ast.Mul(C(2), C(3)))), ('1*2+3', ast.Add(ast.Mul(C(1), C(2)), C(3))), ('1--2', ast.Sub(C(1), ast.Neg(C(2)))),
+        ('7-3-2', sub(7, 3, 2)), ('8/4/2', ast.Div(ast.Div(C(8), C(4)), C(2))), ('a-1', ast.Sub(ast.Column('a'), C(1))), ('a1-2-3', ast.Sub(ast.Sub(ast.Column('a1'), C(2)), C(3))),
+    ]
 
 
 def ident_positions(name):
@@ -358,7 +382,7 @@ def run(ctx):
         if not ctx.mine(idx):
             continue
         st = ir.Query(targets=[ir.Target(e)])
-        roundtrip(ctx, st, f'matrix/{label}', rng, only=('minimal', 'redundant'))
+        roundtrip(ctx, st, f'matrix/{label}', rng, only=('minimal', 'redundant', 'tight'))
         if idx % 3 == 0 or not ctx.quick:
             st2 = ir.Query(targets=[ir.Target(ir.col('k', None))], where=e, order_by=[ir.Key('expr', e, True)])
             roundtrip(ctx, st2, f'matrix-where/{label}', rng, only=('minimal',))
@@ -378,6 +402,21 @@ def run(ctx):
             if not (isinstance(got, ast.Constant) and same(got.value, value)):
                 ctx.violation('c06.literal_value', f'literal {text} parsed to {got!r}, expected Constant({value!r})', {'text': text})
             differential(ctx, f'SELECT {text}', 'literal')
+    # C2. arithmetic on literals without blanks (token boundaries of dates / integers / decimals)
+    if ctx.shard == 1 % ctx.nshards:
+        for text, exp in tight_arithmetic():
+            for prefix, wrap in (('SELECT ', lambda e: e), ('SELECT x WHERE y=', None)):
+                full = prefix + text
+                res = parse_shipped(full)
+                ctx.case(('tight', full), True)
+                ctx.count('obs.tight_arithmetic_texts')
+                if res[0] != 'ok':
+                    ctx.violation('c06.tight_arithmetic', f'{full!r} rejected: {res}', {'text': full})
+                    continue
+                got = res[1].targets[0].expression if wrap else res[1].where_clause.right
+                if not ast_same(got, exp):
+                    ctx.violation('c06.tight_arithmetic', f'{full!r}: {text} parsed to {got}, the grammar gives {exp}', {'text': full})
+                differential(ctx, full, 'tight-arithmetic')
     # D. identifiers in every position
     idents = syngen.TRICKY_IDENTS + syngen.UNDERSCORE_IDENTS + syngen.PLAIN_IDENTS[:4]
     for idx, name in enumerate(idents):
